@@ -82,9 +82,6 @@ F = {
    what="after a yield_now a thread never again reads a store it has seen (or, for the thread that created the atomic, the initial value) before the yield once a newer store exists - on EVERY location, not only the one its loop waits for: a C11-allowed stale read after the loop (flag seen, data still old) is never explored when the waiting thread created or touched the data location before yielding (rt/atomic.rs match_load_to_stores / FirstSeen::is_seen_before_yield; a deliberate progress heuristic, but C18 asks for every combination of values with which the loop can exit)",
    entries=[("C18", "missing", "cfg x=2 | T0: spawn 1; yield; ld 0 rlx; ifeq 1 v:1 1; ld 1 rlx; join 1 | T1: st 1 1 rlx; st 0 1 rlx",
              "ok 0:0=- 0:1=- 0:2=v:1 0:4=v:0 0:5=- 1:0=- 1:1=-", "rc11-strong")]),
- "F11": dict(cls="unstarted-closure-dropped-outside",
-   what="the process aborts instead of unwinding to the caller of loom::model when an iteration fails while a spawned thread that has not started yet still owns a loom handle in its closure (`let a2 = a.clone(); thread::spawn(move || use(a2)); assert!(false)`): the closure is dropped with the scheduler's coroutine, outside the execution context (rt/scheduler.rs)",
-   entries=[("C06", "abort", "cfg unwind=1 | T0: anew 0; aclone 0 1; spawnown 1 1; panic | T1: adrop 1", "abort")]),
  "F23": dict(cls="lazy-init-runs-twice",
    what="the initialiser of a lazy static runs twice in one execution when two threads race on the first access and the initialiser contains a scheduling point (Lazy::get initialises outside any lock and re-checks afterwards; the loser's value is dropped): side effects of the initialiser happen twice, the surviving instance may be the second one created (src/lazy_static.rs Lazy::get, acknowledged in a comment there)",
    entries=[("C17", "forbidden", "cfg x=1 | T0: spawn 1; lazy 0; join 1; ld 0 rlx | T1: ld 0 rlx; lazy 0",
@@ -102,6 +99,7 @@ F = {
 }
 
 FIXED = [
+ ("C06", "bde1841", "F11 the process aborted instead of unwinding to the caller of loom::model when an iteration failed while a spawned thread that had not started yet still owned a loom handle in its closure (let a2 = a.clone(); thread::spawn(move || use(a2)); assert!(false)): the closure was dropped with the scheduler, outside the execution; witness cfg unwind=1 | T0: anew 0; aclone 0 1; spawnown 1 1; panic | T1: adrop 1"),
  ("C06", "17a6006", "F28 a failing iteration aborted the process when a lazy static or a thread-local that was still alive held a loom handle (loom::sync::Arc) or had a destructor performing a loom operation: the values are owned by the Execution and were dropped with it outside the scheduler state while the panic unwound out of Builder::check (second panic 'cannot access Loom execution state from outside a Loom model'); witnesses cfg unwind=1 tlsdtor=1 x=1 | T0: tls 0; panic and the harness scenarios native:lazy_arc_panic, native:tls_arc_panic (first reported by the sub-agent that produced seed C06f as a side observation on the unmodified tree)"),
  ("C04", "c6f0cab", "F26 Notify::notify joined the notifier's causality into every thread whose pending operation named the Notify, also into another thread preempted inside its own notify(): a data race between two notifying threads was not reported on that path; witness cfg n=1 c=1 | T0: spawn 1; cwr 0 5; nnotify 0; join 1 | T1: nnotify 0; crd 0 on the path stored in gen/paths/f26_two_notifiers.json (found by the proof attempt Race2: kernel-checked witness Race2.Finding.missed_race)"),
  ("C08", "c6f0cab", "F26 a notifier acquired another notifier's causality (a notification orders something only for the waiter); same witness"),
